@@ -15,7 +15,7 @@ ID = 'C08'
 LEVEL = 'exploration'
 BUDGET_S = {'quick': 400, 'thorough': 1800}
 RULE = ('Hypothesis rule-based state machine inside one worker process. State: working directory (3 scratch dirs), client '
-        'instances (caching on/off), 4 named input files, a pool of 24 request contents (two sparse ones relying on the default temperature profile) (two of them the same lines with a repeated parameter in opposite order; five three-segment requests that differ only in the tail of a list-valued parameter or mix the list and the enumerated spelling of the profile) from all fast families (reservoir '
+        'instances (caching on/off), 4 named input files, a pool of 27 request contents (two sparse ones relying on the default temperature profile, two stating declared defaults explicitly, one with S-DAC-GT) (two of them the same lines with a repeated parameter in opposite order; five three-segment requests that differ only in the tail of a list-valued parameter or mix the list and the enumerated spelling of the profile) from all fast families (reservoir '
         'models 0-5 and SBT, every surface-plant class, add-ons, multi-segment) and 6 failing contents (out-of-range value, '
         'unknown option, missing profile file = bare sys.exit, division by zero in the linear-heat-sweep model, missing '
         'demand file, gradient glued by missing newline). Rules: run content through a new params object, run a named file, '
@@ -76,6 +76,14 @@ def contents():
     ok += [
         gen.merge(gen.drop_param(gen.RES4, 'Gradient 1'), gen.ELEC(1), gen.ECON['1']),
         gen.merge(gen.RES4, gen.ELEC(2), gen.ECON['1'], [['Number of Segments', '2'], ['Gradient 1', '62'], ['Thickness 1', '2.2']]),
+    ]
+    # figures typed by the user that equal the declared defaults (where 'provided' steers a branch), and the S-DAC-GT extension
+    ok += [
+        gen.merge(gen.RES4, gen.ELEC(2), gen.ECON['1'], [['Overpressure Percentage', '100'], ['Overpressure Depletion Rate', '8'],
+                                                        ['Injection Reservoir Inflation Rate', '100'], ['Gradient 1', '65']]),
+        gen.merge(gen.RES4, gen.DISTRICT, gen.ECON['2'], [['Plant Lifetime', '4'], ['Time steps per year', '2'],
+                                                         ['Total District Heating Network Cost', '10'], ['District Heating O&M Cost', '1']]),
+        gen.merge(gen.RES4, gen.ELEC(1), gen.ECON['1'], gen.SDAC, [['Plant Lifetime', '6'], ['Time steps per year', '2']]),
     ]
     bad = [
         gen.merge(gen.RES4, gen.ELEC(2), gen.ECON['1'], [['Gradient 1', '5000']]),
